@@ -104,6 +104,35 @@ def run(ctx):
         t1.fail("C18.T1:parser-width", pars.path, common.span_of_block_term(pars, cs[0][2]), "parser accepts up to %d fractional digits but the scale is 10^%d" % (pmax, lg))
     else:
         t1.site("FromStr: at most %d fractional digits (checked_sub => error beyond)" % pmax)
+    # the digit bound guards EVERY accepted numeral with a fractional part: each success exit reachable after the
+    # fractional part was parsed is dominated by the success edge of the bound check (no early return around it)
+    if pmax is not None and lens:
+        def same_elem(a, b_):
+            return a[0] == "call" and b_[0] == "call" and a[3] == b_[3] and a[4] == b_[4]
+        frac_elem = lens[0][4][0]
+        fparses = [(b, v) for b, v in calls_named(P, pars, "from_dec_str") if same_elem(v[4][0], frac_elem)]
+
+        def passed_bound(b2):
+            """b2 is only reached when the bound check produced a value (`?` / match Some / if let Some)."""
+            for c in common.control_conditions(P, pars, b2):
+                cd = c["cond"]
+                if cd[0] == "discr" and set(c["allowed"]) <= {"Some", "Continue", "Ok"} and cs[0] in list(common.walk(cd[1])):
+                    return True
+            return False
+        if not fparses:
+            t1.fail("C18.T1:parser-bound-shape", pars.path, pars.span, "cannot relate the digit bound to the parse of the fractional part: unrecognised-idiom")
+        else:
+            bad = []
+            for fb, fv in fparses:
+                reach = pars.body.reachable_from(fb)
+                for (b2, i2, cls2, v2) in common.ok_exit_blocks(P, pars):
+                    if b2 in reach and not passed_bound(b2):
+                        bad.append(b2)
+            if bad:
+                t1.fail("C18.T1:parser-bound-bypass", pars.path, common.span_of_block_term(pars, bad[0]),
+                        "a numeral with a fractional part is accepted on a path that does not pass the %d-digit bound check (early return): strings with more than %d fractional digits can parse" % (pmax, pmax))
+            else:
+                t1.site("FromStr: every success after parsing the fractional part passes the digit bound")
     pows = [v for b, v in calls_named(P, pars, "pow")]
     radix = None
     if len(pows) == 1:
